@@ -28,7 +28,10 @@ impl ParsedSourceFile {
             path.display().to_string()
         };
         let source = read_source_file(&path, workspace)?;
-        let parsed = syn::parse_str(&source).unwrap();
+        // The file doesn't have to be a complete Rust source file: the location may point inside
+        // a fragment pulled in with `include!`.
+        let parsed = syn::parse_str(&source)
+            .map_err(|e| std::io::Error::new(std::io::ErrorKind::InvalidData, e))?;
         Ok(Self {
             display_path,
             contents: source,
